@@ -1530,7 +1530,17 @@ class quantized_bits(base_quantizer.BaseQuantizer):  # pylint: disable=invalid-n
             # Since NumPy arrays are not directly JSON-serializable,
             # we convert them to lists.
             (self.post_training_scale.tolist() if self.post_training_scale is
-             not None else None)
+             not None else None),
+        "scale_axis":
+            self.scale_axis,
+        "use_ste":
+            self.use_ste,
+        "elements_per_scale":
+            self.elements_per_scale,
+        "min_po2_exponent":
+            self.min_po2_exponent,
+        "max_po2_exponent":
+            self.max_po2_exponent
     }
     return config
 
@@ -3279,6 +3289,10 @@ class quantized_hswish(quantized_bits):  # pylint: disable=invalid-name
     """Add relu_shift and relu_upper_bound to the config file."""
 
     base_config = super(quantized_hswish, self).get_config()
+    # options of quantized_bits that this class fixes in its constructor
+    for key in ("keep_negative", "post_training_scale", "use_ste",
+                "elements_per_scale", "min_po2_exponent", "max_po2_exponent"):
+      base_config.pop(key, None)
 
     config = {
         "relu_shift": self.relu_shift,
